@@ -171,3 +171,11 @@ impl BlockFilter {
         );
     }
 }
+
+#[cfg(feature = "verif-hooks")]
+impl BlockFilter {
+    /// Verification hook: one synchronous pass of the service's loop body.
+    pub fn verif_build_filter_data(&self) {
+        self.build_filter_data()
+    }
+}
